@@ -1231,6 +1231,14 @@ pub fn generate(check: &str, tier: &str, seed: u64) -> Scenario {
                 if fire_after == Some(n) {
                     steps.push(CStep::WaitShutdown);
                 }
+                // a tenth of the clients never go quiet: after their script they keep sending
+                // bytes of an unfinished request at short intervals for minutes of simulated time
+                {
+                    let mut dr = Rng::stream(seed ^ ((ci as u64) << 16), "c16-dribble");
+                    if dr.one_in(10) {
+                        steps.push(CStep::Dribble { total_us: *dr.pick(&[90_000_000u64, 200_000_000]), gap_us: *dr.pick(&[50_000u64, 100_000, 400_000]) });
+                    }
+                }
                 // every client keeps reading until the stream ends
                 steps.push(CStep::ReadToEof);
                 clients.push(ClientScript { start_us: *cr.pick(&[0, 0, 50, 3000]), chunk_mode: *cr.pick(&[0, 0, 1, 2]), chunk_n: *cr.pick(&[3, 64]), chunk_pause_us: *cr.pick(&[0, 0, 20]), hostile: false, steps });
